@@ -98,8 +98,24 @@ def _worker_init(cid):
     faulthandler.enable()
 
 
+def _limit_address_space():
+    """Failing allocations are part of the fault model, and a run that asks
+    for 10^20 variables must meet one long before the machine does."""
+    try:
+        import resource
+        gb = float(os.environ.get("VERIF_MEM_GB", "6"))
+        soft, hard = resource.getrlimit(resource.RLIMIT_AS)
+        want = int(gb * 2 ** 30)
+        if hard != resource.RLIM_INFINITY:
+            want = min(want, hard)
+        resource.setrlimit(resource.RLIMIT_AS, (want, hard))
+    except (ImportError, ValueError, OSError):
+        pass
+
+
 def run_chunk(cid, seed, config, start, stop, digest_upto):
     check = _CHECK or load_check(cid)
+    _limit_address_space()
     # if a run wedges in C code (no signal delivery) dump stacks and die:
     faulthandler.dump_traceback_later(RUN_TIMEOUT_S * 3 + 30, exit=True)
     out = {"config": config, "start": start, "stop": stop, "n": 0,
